@@ -118,3 +118,47 @@ func H_C16_QR() {
 	zzvrt.Assert(nsemi == want, "C16.qr-field-count")
 	zzvrt.Cover("c16.end")
 }
+
+// H_C16_Seq: the announcement follows the configuration through every history of announce / unannounce / auto-accept
+// changes: whenever the service is announced, the TXT record that is live at the provider reads back - through parseTxt and
+// processMdnsEntry of a browser - as the manager's current auto-accept flag and its (fixed) descriptive data.
+func c16Seq(nops int) {
+	cfg := baseCfg()
+	p := &vProvider{}
+	m := cfg.manager(p)
+	m.autoaccept = zzvrt.Bool("autoaccept0")
+	want := m.autoaccept
+	for i := 0; i < nops; i++ {
+		switch zzvrt.Choice("op", 4) {
+		case 0:
+			_ = m.AnnounceMdnsEntry()
+			zzvrt.Assert(p.live, "C16.seq-announce-did-not-reach-the-provider")
+		case 1:
+			m.UnannounceMdnsEntry()
+			zzvrt.Assert(!p.live, "C16.seq-unannounce-did-not-reach-the-provider")
+		case 2:
+			want = true
+			m.SetAutoAccept(true)
+		case 3:
+			want = false
+			m.SetAutoAccept(false)
+		}
+		if p.live {
+			b := NewMDNS("the-browsers-own-ski", "", "", "", "", nil, "other", "svc2", 1, nil, MdnsProviderSelectionAll)
+			b.processMdnsEntry(parseTxt(p.txt), "svc", "host", nil, p.port, false)
+			e, ok := b.entries[cfg.ski]
+			zzvrt.Assert(ok, "C16.seq-entry-missing")
+			if ok {
+				zzvrt.Assert(e.Register == want, "C16.seq-announced-register-is-stale")
+				zzvrt.Assert(e.Identifier == cfg.id && e.Brand == cfg.brand && e.Model == cfg.model && e.Type == cfg.typ && e.Serial == cfg.serial,
+					"C16.seq-announced-data-differs")
+				zzvrt.Assert(len(e.Categories) == len(cfg.cats), "C16.seq-categories-differ")
+			}
+		}
+	}
+	zzvrt.Cover("c16.end")
+}
+
+func H_C16_Seq3() { c16Seq(3) }
+func H_C16_Seq4() { c16Seq(4) }
+func H_C16_Seq5() { c16Seq(5) }
